@@ -109,7 +109,13 @@ func (s *StepReadConfig) Run(i *input.Input, _ *output.Output) (err error) {
 		errs = append(errs, errors.New("could not process any files"))
 	}
 
-	for f, p := range processed {
+	processedFiles := make([]string, 0, len(processed))
+	for f := range processed {
+		processedFiles = append(processedFiles, f)
+	}
+	sort.Strings(processedFiles)
+	for _, f := range processedFiles {
+		p := processed[f]
 		if len(p) > 1 {
 			tmpPatterns := fmt.Sprintf("%#v", p)
 			tmpPatterns = strings.TrimPrefix(tmpPatterns, "[]string")
